@@ -4,7 +4,9 @@ from vlib import lcplan
 def plan(tier):
     from vlib.core import Q
     qs = lcplan.seq_queries(tier) + lcplan.par_seq_queries(tier)
-    qs.append(Q('calloc:skinny_calloc', 'c15calloc.c', 'forall addresses calloc could return (and for a failing calloc): skinny_calloc requests size+31 bytes, returns a 32-byte aligned pointer inside the first 31 bytes of the block, stores the pointer to free, propagates NULL', timeout=300))
+    for size in (624, 768, 320, 192):
+        qs.append(Q('calloc:skinny_calloc:%d' % size, 'c15calloc.c', 'skinny_calloc(%d) for every address the allocator could return, each of its requests allowed to fail: aligned result inside a live block, base pointer = that block, nothing else live; on failure NULL and nothing leaked' % size,
+                    defs={'SIZE': size}, timeout=300))
     return dict(queries=qs, level='model_checking', pre=[pre_layout],
                 functions=['all public CTR functions of the three ciphers through the dispatchers (generic back end) and the entry points of every vector back end (clang IR)',
                            'all public parallel-ECB functions (driver files), back end chosen symbolically', 'skinny_cleanse'],
